@@ -123,6 +123,8 @@ def run_case(case):
                 w.exit(w.pick_pid(op[1]))
             elif kind == "reap":
                 w.reap(w.pick_pid(op[1]))
+            elif kind == "become":
+                w.become(w.pick_pid(op[1]))
             elif kind == "recycle":
                 pid = w.pick_pid(op[1])
                 if w.recycle(pid, zombie=op[2]) is not None:
